@@ -14,15 +14,15 @@ ALL = ["C%02d" % i for i in range(1, 21)]
 TEXT = {
     "C01": dict(
         technique="runtime monitor (per-call hit/exit/visibility counters read on return) + ASan/UBSan, 4 tasking backends, stress with injected delays at enkiTS hook points",
-        text="Exploration: every parallel_for/parallel_foreach/parallel_in_blocks_of call issued by the workload is judged by a per-call monitor (exactly-once per index, nothing outside [0,n), joined and visible on return, nested calls) under all four tasking backends, plain and ASan/UBSan builds. Schedules are sampled (stress, oversubscription, uneven bodies, hook delays), not enumerated.",
+        text="Exploration: every parallel_for/parallel_foreach/parallel_in_blocks_of call issued by the workload is judged by a per-call monitor (exactly-once per index, nothing outside [0,n), joined and visible on return, nested calls) under all four tasking backends, plain and ASan/UBSan builds, incl. loops issued while the caller's enkiTS pipe is full (parked workers + 256 queued tasks). Schedules are sampled (stress, oversubscription, uneven bodies, hook delays), not enumerated.",
         note="Trusts the harness monitor (atomic hit counters) and the sanitizers; TSan is not usable across TBB/libgomp/enkiTS (DESIGN 3.1). Counts > 10^7 and > INT_MAX are not executed.", ref="4/C01"),
     "C02": dict(
         technique="runtime monitor (execution counters, value check, lifetime registry on result slot) + ASan/LSan, 4 backends",
-        text="Exploration: bursts of scheduled closures / async / AsyncTask with instrumented result types on four backends; exactly-once execution, value fidelity, finished()=>get(), destruction waits, no operation on dead storage, under ASan/UBSan and plain.",
+        text="Exploration: bursts of scheduled closures / async / AsyncTask with instrumented result types on four backends; exactly-once execution, value fidelity, finished()=>get(), destruction waits, no operation on dead storage, released storage not written, under ASan/UBSan and plain; start stalls are classified per process (rare stall on TBB = open finding, systematic = violation).",
         note="Bounded 'eventually' (watchdog + logical witness); schedules sampled.", ref="4/C02"),
     "C03": dict(
         technique="offline rule checker over a sequence-numbered event log; directed pauses at RKCOMMON_VERIF hook points; TSan + ASan",
-        text="Exploration: directed schedules (pause thread X at point P until thread Y passes Q) over all hook-point pairs x call scripts x launch methods, plus PCT-style random delays and undelayed stress; rules R1-R3 checked offline on the event log.",
+        text="Exploration: directed schedules (pause thread X at point P until thread Y passes Q) over hook-point pairs x call scripts x launch methods, PCT-style random delays, undelayed stress, and raw stress without any hook installed (2000 start/stop cycles per script, incl. back-to-back stop/start); rules R1-R3 checked over the sequence-numbered event log; lost wake-ups decided by a logical witness (no body for 5 s after start() returned, yet a body within ms after a fresh stop()+start()).",
         note="Interleavings between two hook points are not distinguished; liveness is bounded.", ref="4/C03"),
     "C04": dict(
         technique="differential runtime oracle (per-component scalar reference) under ASan/UBSan",
@@ -58,11 +58,11 @@ TEXT = {
         note="Unaligned DataView strides are not generated (caller's UB).", ref="4/C11"),
     "C12": dict(
         technique="permutation/order/monotonicity checkers over recorded hand-off logs + ThreadSanitizer",
-        text="Exploration: 1..8 producers with unique-id payloads against a consuming thread; offline checks for loss/duplication/order/torn state; TSan decides the data-race clause.",
+        text="Exploration: 1..8 producers with unique-id payloads against a consuming thread; offline checks for loss/duplication/order/torn state; a burst protocol makes the consumer obtain the last value at every producer pause; TSan decides the data-race clause.",
         note="Schedules sampled; TSan exact because only std primitives are used.", ref="4/C12"),
     "C13": dict(
         technique="runtime monitor of simultaneous body count and reported thread count, 4 backends, fresh process per init sequence",
-        text="Exploration: init sequences x n in 1..32 and n<=0 on four backends; max simultaneous parallel_for bodies <= n, numTaskingThreads()==n, with a saturation coverage floor.",
+        text="Exploration: init sequences x n in 1..32 and n<=0 on four backends, fresh process each; max simultaneous parallel_for bodies <= n (transient vs persistent excess told apart by a re-measurement), numTaskingThreads()==n, with a saturation coverage floor; exiting enkiTS workers are held at a hook point so that teardown races show under ASan.",
         note="Simultaneous count only; distinct thread ids are evidence not verdict.", ref="4/C13"),
     "C14": dict(
         technique="alignment/pattern/interval-disjointness monitor + ASan/LSan, both allocator back ends",
@@ -74,7 +74,7 @@ TEXT = {
         note="Checked for the declared AbstractArray<T> operator.", ref="4/C15"),
     "C16": dict(
         technique="libFuzzer + ASan/UBSan with exception-type oracle; generated-tree round trip; truncation/substitution sweep",
-        text="Exploration: coverage-guided fuzzing of readXML with totality/exception-type/memory-safety oracle, deterministic truncation and byte-substitution sweeps of generated documents, and faithful round trip of generated trees.",
+        text="Exploration: coverage-guided fuzzing of readXML (libFuzzer+ASan+UBSan) with totality/exception-type/memory-safety oracle, deterministic truncation, substitution, deletion and insertion sweeps of generated documents, faithful round trip of generated trees, and an open-descriptor monitor around the calls.",
         note="max_len bounds nesting depth.", ref="4/C16"),
     "C17": dict(
         technique="128-bit index reference, exhaustive small extents, unique-id cells, under ASan/UBSan",
